@@ -247,6 +247,39 @@ def run(tier, seed, replay=None):
                     V.failure({'what': 'a subdivide piece does not reproduce the original map', 'obj': O.spec_json(spec), 'op': 'subdivide', 'n': n, 'params': tp})
         if hits != 1:
             V.failure({'what': 'subdivide pieces do not tile the domain (parameter covered by %d pieces)' % hits, 'obj': O.spec_json(spec), 'op': 'subdivide', 'n': n, 'params': tp})
+    # ---------------------------------------------------------------- split under a non-default knot tolerance
+    # "within the knot tolerance of a knot" means the tolerance in force when split() is called
+    from splipy import state as st_
+    for it in range(20 if tier == 'quick' else 300):
+        spec = O.gen_obj(rng, pardim=rng.choice([1, 1, 2]), kinds=['open'], nint_max=3, pmax=4)
+        d = rng.randrange(len(spec['bases']))
+        b = spec['bases'][d]
+        s_, e_ = O.domain(b)
+        inner = sorted(set(x for x in b['knots'] if s_ < x < e_ and b['knots'].count(x) < b['order']))
+        if not inner:
+            continue
+        o = O.make_impl(spec)
+        k_ = float(rng.choice(inner))
+        tol2 = rng.choice([1e-6, 1e-4])
+        x = k_ + rng.choice([-1, 1]) * tol2 * rng.choice([0.01, 0.3])
+        case = dict(op='split under knot_tolerance=%g' % tol2, direction=d, obj=O.spec_json(spec), points=[repr(x)], near_knot=k_)
+        try:
+            with st_.state(knot_tolerance=tol2):
+                pcs = o.split(x, d)
+                doms = [(p_.start(d), p_.end(d)) for p_ in pcs]
+            nontriv.add(C.case_hash(case))
+            if len(pcs) != 2 or abs(doms[0][0] - float(s_)) > 1e-12 or abs(doms[1][1] - float(e_)) > 1e-12 or abs(doms[0][1] - doms[1][0]) > 1e-12 or abs(doms[0][1] - k_) > 2 * tol2:
+                V.failure(dict(case, what='L2: the pieces of a split next to a knot under a wider knot tolerance have domains %s' % (doms,)))
+                continue
+            par = [o.start(e2) + (o.end(e2) - o.start(e2)) * 0.41 for e2 in range(o.pardim)]
+            for pc, (lo, hi) in zip(pcs, doms):
+                for f_ in (0.1, 0.5, 0.9):
+                    par[d] = lo + (hi - lo) * f_
+                    if not np.allclose(np.asarray(pc.evaluate(*par)), np.asarray(o.evaluate(*par)), rtol=1e-8, atol=1e-8):
+                        V.failure(dict(case, what='L2: a piece of a split next to a knot under a wider knot tolerance differs from the original', at=list(par)))
+                        break
+        except Exception as e:  # noqa
+            V.failure(dict(case, what='L2: split under knot_tolerance=%g raised %s' % (tol2, type(e).__name__)))
     # ---------------------------------------------------------------- decimal (non-dyadic) parameters, implementation only
     # every other block uses dyadic numbers so that the exact model sees what the doubles are; this one uses decimal
     # domains and split points (not representable exactly), where only the statement itself can be asked: the
